@@ -1,1 +1,60 @@
-From PyecoreV Require Import Model.Kernel.
+(* C19 — the reflective views agree with the model they describe.
+   Statements only; proofs in Proofs/C19Proofs.v over Model/Kernel.v.
+   eContents = the children held by the containment references; eAllContents
+   yields exactly the transitive descendants (sound for any fuel, complete for
+   every descendant within the fuel, which is the number of objects + 1);
+   eRoot is the end of the eContainer chain and eResource is the root's
+   resource, for every acyclic containment.
+   PARTIAL: "exactly once" for eAllContents needs the single-owner invariant
+   of C02 (not yet a theorem); the metamodel-side views (eAllStructuralFeatures,
+   eAllSuperTypes, ...) and the interchangeability of access paths are decided
+   by the correspondence (access path randomised per call) and by the oracle
+   of harness/props/c19.py. *)
+From Coq Require Import ZArith List Bool Arith.
+From PyecoreV Require Import Lib.PyBase Lib.PyList Model.Kernel Proofs.C19Proofs.
+Import ListNotations.
+
+Theorem C19_econtents_are_the_containment_slots :
+  forall m s o c,
+    In c (econtents m s o) <->
+    exists f, In f (ref_feats m o) /\ f_cont (fd m f) = true /\ In (VObj c) (vals s (o, f)).
+Proof. exact econtents_spec. Qed.
+Print Assumptions C19_econtents_are_the_containment_slots.
+
+Theorem C19_eroot_ends_the_container_chain :
+  forall m s o n,
+    depth s o n -> n <= S (length (ocls m)) ->
+    chain_end s o (eroot m s o) /\ cont s (eroot m s o) = None.
+Proof. exact eroot_is_chain_end. Qed.
+Print Assumptions C19_eroot_ends_the_container_chain.
+
+Theorem C19_chain_end_unique :
+  forall s o r r', chain_end s o r -> chain_end s o r' -> r = r'.
+Proof. exact chain_end_unique. Qed.
+Print Assumptions C19_chain_end_unique.
+
+Theorem C19_eresource_is_the_roots :
+  forall m s o, eresource_of m s o = eres s (eroot m s o).
+Proof. exact eresource_is_roots. Qed.
+Print Assumptions C19_eresource_is_the_roots.
+
+Theorem C19_eallcontents_only_descendants :
+  forall m s fuel o c, In c (eallcontents fuel m s o) -> descends m s o c.
+Proof. exact eallcontents_sound. Qed.
+Print Assumptions C19_eallcontents_only_descendants.
+
+Theorem C19_eallcontents_every_descendant_partial :
+  forall m s n o c fuel, descends_in m s n o c -> n <= fuel -> In c (eallcontents fuel m s o).
+Proof. exact eallcontents_complete. Qed.
+Print Assumptions C19_eallcontents_every_descendant_partial.
+
+Definition ex_mm : mm :=
+  {| feats := [ {| f_owner := 0; f_isref := true; f_many := true; f_unique := true; f_cont := true;
+                   f_opp := None; f_type := TClass 0; f_default := VNone |} ];
+     conf := [(0, 0)]; ocls := [0; 0; 0]; enames := []; nres := 1 |}.
+
+Example C19_witness :
+  let s := fold_left (next ex_mm) [OAppend 0 0 (VObj 1); OAppend 1 0 (VObj 2); ORAppend 0 0] (init_state ex_mm) in
+  econtents ex_mm s 0 = [1] /\ eallcontents 4 ex_mm s 0 = [1; 2] /\ eroot ex_mm s 2 = 0 /\
+  eresource_of ex_mm s 2 = Some 0.
+Proof. vm_compute. repeat split; reflexivity. Qed.
